@@ -456,22 +456,24 @@ def sniff_format(files: dict) -> str:
 
 
 def clip_geometry_for(b, rng):
-    """a box with quarter-integer corners covering part of the dataset, from the generator's ground truth"""
-    xs = [float(x) for poly in b.polys if poly for x, _ in poly]
-    ys = [float(y) for poly in b.polys if poly for _, y in poly]
-    x0, x1, y0, y1 = min(xs), max(xs), min(ys), max(ys)
-
-    def cut(lo, hi):
-        span = hi - lo
-        a = lo + rng.choice([-1, 0, 0.25, 0.5]) * span * rng.choice([0, 0.5, 1]) / 2
-        c = hi - rng.choice([-1, 0, 0.25, 0.5]) * span * rng.choice([0, 0.5, 1]) / 2
-        a, c = round(a * 4) / 4, round(c * 4) / 4
-        if c <= a:
-            c = a + 1
-        return a, c
-    ax, cx = cut(x0, x1)
-    ay, cy = cut(y0, y1)
-    return [ax, ay, cx, cy]
+    """a box with quarter-integer corners around one cell (so it meets the dataset), grown by a random
+    share of the dataset's extent; from the generator's ground truth"""
+    polys = [p for p in b.polys if p]
+    xs = [float(x) for poly in polys for x, _ in poly]
+    ys = [float(y) for poly in polys for _, y in poly]
+    cell = rng.choice(polys)
+    cx = [float(x) for x, _ in cell]
+    cy = [float(y) for _, y in cell]
+    gx = (max(xs) - min(xs)) * rng.choice([0, 0.25, 0.5, 1])
+    gy = (max(ys) - min(ys)) * rng.choice([0, 0.25, 0.5, 1])
+    q = lambda v: round(v * 4) / 4     # noqa: E731
+    x0, x1 = q(min(cx) - gx * rng.random()), q(max(cx) + gx * rng.random())
+    y0, y1 = q(min(cy) - gy * rng.random()), q(max(cy) + gy * rng.random())
+    if x1 <= x0:
+        x1 = x0 + 1
+    if y1 <= y0:
+        y1 = y0 + 1
+    return [x0, y0, x1, y1]
 
 
 def fmt_number(rng, v: float) -> str:
@@ -523,6 +525,17 @@ def eval_cmd(ctx, case: dict, work: pathlib.Path):
             xr.Dataset({'a': ('n', [1.0, 2.0])}).to_netcdf(inp)
         if scenario == 'missing-outdir':
             outp = d / 'no' / 'such' / 'dir' / out_name
+            # how the external writer (netCDF4 through xarray / open()) reports a missing directory
+            try:
+                if cmd == 'export-geometry':
+                    open(outp, 'w').close()
+                else:
+                    import xarray as xr
+                    xr.Dataset({'a': ('n', [1.0])}).to_netcdf(outp)
+            except OSError:
+                case = dict(case, failure='os')
+            except Exception:  # noqa
+                case = dict(case, failure='uncaught')
 
         # ---- command specific arguments and the library call ----------------------
         if cmd == 'clip':
@@ -605,6 +618,17 @@ def eval_cmd(ctx, case: dict, work: pathlib.Path):
         msg = int(bool(err.strip()))
 
         # ---- library ------------------------------------------------------------------
+        if scenario == 'points-miss':
+            # what the handler must do follows from what the library call does with these points
+            from emsarray.operations.point_extraction import NonIntersectingPoints
+            try:
+                library()
+                case = dict(case, scenario='ok')
+                scenario = 'ok'
+            except NonIntersectingPoints:
+                case = dict(case, failure='command')
+            except Exception:  # noqa
+                case = dict(case, failure='uncaught')
         if scenario == 'ok':
             try:
                 lib_result = library()
@@ -632,6 +656,8 @@ def eval_cmd(ctx, case: dict, work: pathlib.Path):
                 if code == 0:
                     ctx.oracle_fail('cli-succeeds-where-library-fails', desc,
                                     f'`emsarray {shown}` ended with status 0, the library call raises {lib_error}')
+            elif code != 0 and has_out:
+                pass    # already reported above: a failure status with the output left behind
             elif code != 0:
                 sig = 'cli-fails-where-library-succeeds'
                 if cmd == 'clip' and case.get('geom_how') == 'bounds' and prefix_misread(case['bounds_text']):
@@ -839,10 +865,19 @@ def dataset_recipe(rng, conv: str, tier: str, for_clip: bool) -> dict:
             # clipping meshes with optional connectivity / CF grids with plain-variable coordinates fails inside
             # the library for reasons belonging to C08 / C09; keep this check about "CLI = library"
             kw.update(tables=[], edge_dim_declared=False)
-    elif for_clip:
-        kw = {'coords_as': 'coords'}
-    r = G.random_recipe(rng, conv, tier, **kw)
-    r = G.attach_vars(rng, r, n_vars=rng.choice([2, 3]), max_extra=2)
+    else:
+        kw = {'coords_as': 'coords'} if for_clip else {}
+        if conv != 'cf1d':
+            kw['min_n'] = 2          # one-row curvilinear grids without stored bounds have no valid cell
+    r0 = G.random_recipe(rng, conv, tier, **kw)
+    for _ in range(20):
+        r = G.attach_vars(rng, r0, n_vars=rng.choice([2, 3]), max_extra=2)
+        if any(v.get('kind') == 'face' for v in r['vars']):     # something to extract / clip on the cells
+            break
+    if conv == 'shoc_simple':
+        # ShocSimple.topology looks at the standard_name of every (j, i) variable and raises if one has none
+        for v in r['vars']:
+            v['attrs'] = {'standard_name': v['name']}
     return {'ds': r, 'timecoord': rng.random() < 0.6}
 
 
@@ -972,8 +1007,14 @@ def run(ctx) -> None:
     items = []
     try:
         cases = table_cases(ctx) + text_cases(ctx) + geom_cases(ctx) + command_cases(ctx)
+        real_ctx, ctx = ctx, Flagging(ctx)
         for case in cases:
+            before = ctx.flags
             line, impl = evaluate(ctx, case, work)
+            if ctx.flags > before:
+                # the direct oracle has reported this input; the model line would only say it again
+                ctx.count('flagged-by-oracle')
+                line = None
             if case['k'] == 'cmd':
                 ctx.count(f"cmd:{case['cmd']}:{case.get('scenario', 'ok')}")
                 ctx.nontrivial(('cmd', json.dumps(case, sort_keys=True, default=str)[:2000]))
@@ -983,12 +1024,26 @@ def run(ctx) -> None:
             items.append((line, impl, {'case': case}))
         if ctx.thorough:
             subprocess_sample(ctx, work)
+        ctx = real_ctx
     finally:
         shutil.rmtree(work, ignore_errors=True)
     if ctx.searching and ctx.driver is None:
         ctx.evaluated(len(items))
         return
     ctx.check_batch(items)
+
+
+class Flagging:
+    """ctx proxy that counts what the direct oracle reports (known findings included)"""
+    def __init__(self, ctx):
+        self.ctx, self.flags = ctx, 0
+
+    def oracle_fail(self, sig, desc, msg):
+        self.flags += 1
+        self.ctx.oracle_fail(sig, desc, msg)
+
+    def __getattr__(self, name):
+        return getattr(self.ctx, name)
 
 
 def subprocess_sample(ctx, work: pathlib.Path) -> None:
